@@ -23,6 +23,8 @@ Take(s, n) == SubSeq(s, 1, n)
 Drop(s, n) == SubSeq(s, n + 1, Len(s))
 Has(s, a)  == \E i \in 1..Len(s) : s[i] = a
 RangeOf(s) == {s[i] : i \in 1..Len(s)}
+RECURSIVE SetAsSeq(_)
+SetAsSeq(S) == IF S = {} THEN <<>> ELSE LET x == CHOOSE y \in S : TRUE IN <<x>> \o SetAsSeq(S \ {x})
 Max2(a, b) == IF a >= b THEN a ELSE b
 Min2(a, b) == IF a <= b THEN a ELSE b
 =============================================================================
